@@ -7,6 +7,7 @@ CONSTANTS
   FixEnqueue = TRUE
   FixBatch = FALSE
   LossySend = TRUE
+  HasKeepalive = TRUE
 INVARIANTS NotW2
 
 CHECK_DEADLOCK FALSE
